@@ -1,5 +1,5 @@
 import BindgenModel.Model.Util
-import BindgenModel.Model.CompCodegen
+import BindgenModel.Model.LayoutRegions
 /-! Line protocol for the layout models (C02).
 
 * `lay alignto <size> <align>` → `<n>`
@@ -8,7 +8,7 @@ import BindgenModel.Model.CompCodegen
 * `lay comp union=0|1 layout=S,A|- pattr=0|1 ovirt=0|1 vptr=0|1 opaque=0|1 fwd=0|1 zs=0|1 copy=0|1
    force=0|1 ptr=N untagged=0|1 style=w|m u64a=N bases=-|S,A;-;…
    fields=-|d:S,A|-:OFF|-:ES,EA,LEN|-,LEN|-;u:NTH:S,A;…`
-  → `emit <struct|union> packed=-|N align=-|N fields=<name>:<size>:<align>:<blob|->,… reprc <size> <align> offs=<idx>:<off>,…`
+  → `emit <struct|union> packed=-|N align=-|N fields=<name>:<size>:<align>:<blob|->,… ispacked=0|1 inexact=0|1 reprc <size> <align> offs=<idx>:<off>,…`
   or `emit panic` / `emit … reprc reject`.
 -/
 namespace BindgenModel.Driver.C02
@@ -81,7 +81,8 @@ def handleComp (toks : List String) : String :=
                       allCanCopy := bool toks "copy" }
     match emit o c with
     | none => "emit panic"
-    | some r => "emit " ++ renderAgg r ++ " reprc " ++ (match reprC r with | some l => renderLayout l | none => "reject")
+    | some r => "emit " ++ renderAgg r ++ " ispacked=" ++ (if c.isPacked then "1" else "0") ++
+        " inexact=" ++ (if hasInexactPad r then "1" else "0") ++ " reprc " ++ (match reprC r with | some l => renderLayout l | none => "reject")
   | _, _, _ => "bad-op"
 
 def handle (toks : List String) : String :=
